@@ -76,19 +76,19 @@ func init() {
 		},
 	})
 	def("C03", &propertyDef{
-		Decides:    "form coverage: for every attribute path of schema/compose-spec.json and every YAML kind the schema admits there, the code that consumes it has an arm for that kind: the canonical transformer registered for the path, else the custom decoder of the model type, else the plain Go kind under strict mapstructure + the repo's cast hook (A3); every schema attribute has a model field (A7); every transformer row denotes a schema path (A2); the bind-vs-volume decision of the volume short syntax is controlled by conditions computed from the source only (CLASSIFY); when several scalar spellings of one short form are accepted (a number and a string) they are all handed to the same parser of package types / format (SIBARM); a key is resolved from the environment only when it has no value at all (bare `KEY`, null), decided by nil / separator-absence / type tests and never by an emptiness test, so `KEY=` stays explicitly empty (INHERIT).",
+		Decides:    "form coverage: for every attribute path of schema/compose-spec.json and every YAML kind the schema admits there, the code that consumes it has an arm for that kind: the canonical transformer registered for the path, else the custom decoder of the model type, else the plain Go kind under strict mapstructure + the repo's cast hook (A3); every schema attribute has a model field (A7); every transformer row denotes a schema path (A2); the bind-vs-volume decision of the volume short syntax is controlled by conditions computed from the source only (CLASSIFY); when several scalar spellings of one short form are accepted (a number and a string) they are all handed to the same parser of package types / format (SIBARM); command strings are split by shellwords.Parse only (SHELLSPLIT); a key is resolved from the environment only when it has no value at all (bare `KEY`, null), decided by nil / separator-absence / type tests and never by an emptiness test, so `KEY=` stays explicitly empty (INHERIT).",
 		NotDecided: "that two spellings produce equal values: port-range pairing, what counts as a path in the bind-vs-volume classification, KEY=VALUE splitting, durations, byte sizes and shell-word splitting are value-level grammars; rejection of near-miss strings.",
-		Rules:      []string{"A3", "A7", "A2", "CLASSIFY", "SIBARM", "INHERIT"},
+		Rules:      []string{"A3", "A7", "A2", "CLASSIFY", "SIBARM", "INHERIT", "SHELLSPLIT"},
 		Run: func(c *rules.Ctx) []report.Obligation {
-			return cat(c.INHERIT("INHERIT"), c.A3("A3"), c.A7("A7"), c.A2("A2", rules.TTransform), c.CLASSIFY("CLASSIFY"), c.SIBARM("SIBARM", "transform", "types"))
+			return cat(c.SHELLSPLIT("SHELLSPLIT"), c.INHERIT("INHERIT"), c.A3("A3"), c.A7("A7"), c.A2("A2", rules.TTransform), c.CLASSIFY("CLASSIFY"), c.SIBARM("SIBARM", "transform", "types"))
 		},
 	})
 	def("C04", &propertyDef{
-		Decides:    "merge coverage (A4): every attribute below services/networks/volumes/secrets/configs that the schema lets be spelled as list-or-mapping or string-or-list has a converting merger; every uniqueItems list is de-duplicated after the append (unicity indexer, mapping-producing or replacing merger), the de-duplication keeping, per key, the position of its first occurrence in the output list (position-map idiom, proved by PANIC-IDX over package override); command, entrypoint and healthcheck.test are bound to the replacing merger; each indexer has an arm for every item kind, and builds its key with verbs that print every admissible YAML type of a field alike (FMTVERB). The two tables are exclusive and have no dead rows (A1, A2). Stage order Apply(!reset) < Merge < EnforceUnicity < validate < Canonical < EnforceUnicity holds on every path and each stage's error is propagated (PIPE); every YAML document of a file runs through the pipeline (MULTIDOC).",
+		Decides:    "merge coverage (A4): every attribute below services/networks/volumes/secrets/configs that the schema lets be spelled as list-or-mapping or string-or-list has a converting merger; every uniqueItems list is de-duplicated after the append (unicity indexer, mapping-producing or replacing merger), the de-duplication keeping, per key, the position of its first occurrence in the output list (position-map idiom, proved by PANIC-IDX over package override); command, entrypoint and healthcheck.test are bound to the replacing merger; each indexer has an arm for every item kind, and builds its key with verbs that print every admissible YAML type of a field alike (FMTVERB); mergeLogging consults the presence of `driver` on both sides before replacing instead of merging (LOGMERGE). The two tables are exclusive and have no dead rows (A1, A2). Stage order Apply(!reset) < Merge < EnforceUnicity < validate < Canonical < EnforceUnicity holds on every path and each stage's error is propagated (PIPE); every YAML document of a file runs through the pipeline (MULTIDOC).",
 		NotDecided: "the merged values themselves; `!reset` inside sequences; that what a later file does not mention is preserved.",
-		Rules:      []string{"A4", "PANIC-IDX", "FMTVERB", "A1", "A2", "PIPE", "MULTIDOC", "TREEPATH", "TREE"},
+		Rules:      []string{"A4", "PANIC-IDX", "FMTVERB", "A1", "A2", "PIPE", "MULTIDOC", "TREEPATH", "TREE", "LOGMERGE"},
 		Run: func(c *rules.Ctx) []report.Obligation {
-			return cat(c.A4("A4"), rules.Only(c.PanicIDX("PANIC-IDX", "LOAD"), "override."), c.FMTVERB("FMTVERB", "override"), c.TREEPATH("TREEPATH"), c.TREE("TREE", "LOAD"), c.A1("A1", rules.TMerge, rules.TUnique), c.A2("A2", rules.TMerge, rules.TUnique),
+			return cat(c.LOGMERGE("LOGMERGE"), c.A4("A4"), rules.Only(c.PanicIDX("PANIC-IDX", "LOAD"), "override."), c.FMTVERB("FMTVERB", "override"), c.TREEPATH("TREEPATH"), c.TREE("TREE", "LOAD"), c.A1("A1", rules.TMerge, rules.TUnique), c.A2("A2", rules.TMerge, rules.TUnique),
 				c.PIPE("PIPE", stageIn("Apply", "override.Merge", "override.EnforceUnicity", "schema.Validate", "transform.Canonical", "loader.OmitEmpty")), c.MULTIDOC("MULTIDOC"))
 		},
 	})
@@ -101,11 +101,11 @@ func init() {
 		},
 	})
 	def("C06", &propertyDef{
-		Decides:    "import stores a resource only when absent, differing redefinitions return an error (INC-1); every field of loader.Options is copied, from the field of the same name, by (*Options).clone, so a nested load (include, extends) runs under the switches the caller set (CLONE); every entry of an include section is loaded: no iteration over the entries reaches the next without the nested load (REFS); the resource kinds imported / named / rendered equal the resource maps of types.Project (A10); the include chain is compared, extended and handed to the nested load (CYC); the nested load works on cloned options with ResolvePaths, SkipNormalization and SkipConsistencyCheck forced, its environment is Clone(parent).Merge(env file) (INC-4); `include` is deleted and the nested model imported on every success path (INC-5); included env_file errors are propagated (ERR).",
+		Decides:    "import stores a resource only when absent, differing redefinitions return an error (INC-1); the default `.env` of an included project is the one of its project directory (INCENV); every field of loader.Options is copied, from the field of the same name, by (*Options).clone, so a nested load (include, extends) runs under the switches the caller set (CLONE); every entry of an include section is loaded: no iteration over the entries reaches the next without the nested load (REFS); the resource kinds imported / named / rendered equal the resource maps of types.Project (A10); the include chain is compared, extended and handed to the nested load (CYC); the nested load works on cloned options with ResolvePaths, SkipNormalization and SkipConsistencyCheck forced, its environment is Clone(parent).Merge(env file) (INC-4); `include` is deleted and the nested model imported on every success path (INC-5); included env_file errors are propagated (ERR).",
 		NotDecided: "equivalence with the pasted model; directory anchoring values.",
-		Rules:      []string{"INC", "A10", "CYC", "ERR", "REFS", "CLONE"},
+		Rules:      []string{"INC", "A10", "CYC", "ERR", "REFS", "CLONE", "INCENV"},
 		Run: func(c *rules.Ctx) []report.Obligation {
-			return cat(c.CLONE("CLONE"), c.INC("INC"), c.A10("A10"), rules.Only(c.CYC("CYC"), "include ::"), rules.Only(c.ERR("ERR", "LOAD"), "loader.ApplyInclude ::"), rules.Only(c.REFS("REFS", "loader"), "loader.ApplyInclude ::"),
+			return cat(c.INCENV("INCENV"), c.CLONE("CLONE"), c.INC("INC"), c.A10("A10"), rules.Only(c.CYC("CYC"), "include ::"), rules.Only(c.ERR("ERR", "LOAD"), "loader.ApplyInclude ::"), rules.Only(c.REFS("REFS", "loader"), "loader.ApplyInclude ::"),
 				c.RangeGuard("INC-4", "types.(Mapping).Merge", true))
 		},
 	})
@@ -118,45 +118,45 @@ func init() {
 		},
 	})
 	def("C08", &propertyDef{
-		Decides:    "recursiveInterpolate substitutes only in the string arm, stores mapping values under the unchanged range key and returns other scalars unchanged (INT-1); for every schema path that admits a string beside a typed scalar and whose model type is a Go scalar, a string is convertible: cast-table row of a fitting kind, decode-time hook covering the Go kind, or a decoder with a string arm, and every cast row names an existing path of a fitting kind (A5); the cast table is exclusive (A1); no substituted value re-enters substitution, so a `$` inside a value or an already interpolated default is not expanded again (TPL-3); every field of loader.Options is copied, from the field of the same name, by (*Options).clone, so a nested load (include, extends) runs under the switches the caller set (CLONE).",
+		Decides:    "recursiveInterpolate substitutes only in the string arm, stores mapping values under the unchanged range key and returns other scalars unchanged (INT-1); for every schema path that admits a string beside a typed scalar and whose model type is a Go scalar, a string is convertible: cast-table row of a fitting kind, decode-time hook covering the Go kind, or a decoder with a string arm, and every cast row names an existing path of a fitting kind (A5); the cast table is exclusive (A1); no substituted value re-enters substitution, so a `$` inside a value or an already interpolated default is not expanded again (TPL-3); the text-to-boolean conversion maps exactly true/y/yes/on to true and false/n/no/off to false, through constant results (BOOLTAB); every field of loader.Options is copied, from the field of the same name, by (*Options).clone, so a nested load (include, extends) runs under the switches the caller set (CLONE).",
 		NotDecided: "`$$` escaping equivalence; that both mechanisms convert a text to the same value; error text naming the path.",
-		Rules:      []string{"INT-1", "A5", "A1", "TPL-3", "TREEPATH", "CLONE"},
+		Rules:      []string{"INT-1", "A5", "A1", "TPL-3", "TREEPATH", "CLONE", "BOOLTAB"},
 		Run: func(c *rules.Ctx) []report.Obligation {
-			return cat(c.CLONE("CLONE"), c.INT1("INT-1"), c.A5("A5"), c.A1("A1", rules.TCast), rules.OnlyRule(c.TPL("TPL"), "TPL-3"), c.TREEPATH("TREEPATH"))
+			return cat(c.BOOLTAB("BOOLTAB"), c.CLONE("CLONE"), c.INT1("INT-1"), c.A5("A5"), c.A1("A1", rules.TCast), rules.OnlyRule(c.TPL("TPL"), "TPL-3"), c.TREEPATH("TREEPATH"))
 		},
 	})
 	def("C09", &propertyDef{
-		Decides:    "every model field has equal yaml and json keys (or json \"-\"); a type has both or neither of MarshalYAML/MarshalJSON; the kind a custom MarshalYAML emits is admitted by the schema where the type is used (A6); every schema attribute has a model field (A7); Project.MarshalJSON enumerates the resource kinds of the struct (A10); renderers and the parsers that read them back agree on their literal separators and host lists are sorted (CODEC); rendering leaves the project untouched: MarshalYAML / MarshalJSON and what they call write nothing reachable from the receiver, so a second rendering starts from the same project (IMM-I1); decoders of signed integer model types do not parse with an unsigned parser (NUMSIGN); a key is resolved from the environment only when it has no value at all (bare `KEY`, null), decided by nil / separator-absence / type tests and never by an emptiness test, so `KEY=` stays explicitly empty (INHERIT), which is what keeps an explicitly empty value of a rendering from inheriting on reload.",
+		Decides:    "every model field has equal yaml and json keys (or json \"-\"); a type has both or neither of MarshalYAML/MarshalJSON; the kind a custom MarshalYAML emits is admitted by the schema where the type is used (A6); every schema attribute has a model field (A7); Project.MarshalJSON enumerates the resource kinds of the struct (A10); renderers and the parsers that read them back agree on their literal separators and host lists are sorted (CODEC); rendering leaves the project untouched: MarshalYAML / MarshalJSON and what they call write nothing reachable from the receiver, so a second rendering starts from the same project (IMM-I1); decoders of signed integer model types do not parse with an unsigned parser (NUMSIGN); no renderer chooses a spelling by the sign of an integer field (SIGNCMP); a key is resolved from the environment only when it has no value at all (bare `KEY`, null), decided by nil / separator-absence / type tests and never by an emptiness test, so `KEY=` stays explicitly empty (INHERIT), which is what keeps an explicitly empty value of a rendering from inheriting on reload.",
 		NotDecided: "equality of the reloaded project; byte-identity of a second rendering beyond map order and receiver immutability.",
-		Rules:      []string{"A6", "A7", "A10", "CODEC", "IMM-I1", "INHERIT", "NUMSIGN"},
+		Rules:      []string{"A6", "A7", "A10", "CODEC", "IMM-I1", "INHERIT", "NUMSIGN", "SIGNCMP"},
 		Run: func(c *rules.Ctx) []report.Obligation {
-			return cat(c.NUMSIGN("NUMSIGN"), c.INHERIT("INHERIT"), c.A6("A6"), c.A7("A7"), c.A10("A10"), c.CODEC("CODEC"), c.IMMRender("IMM"))
+			return cat(c.SIGNCMP("SIGNCMP"), c.NUMSIGN("NUMSIGN"), c.INHERIT("INHERIT"), c.A6("A6"), c.A7("A7"), c.A10("A10"), c.CODEC("CODEC"), c.IMMRender("IMM"))
 		},
 	})
 	def("C10", &propertyDef{
-		Decides:    "checkConsistency has an error return that depends on the model fields of each of the 20 rules of the statement (INV) and ends in graph.CheckCycle; searchCycle is guarded by path membership and errors on a hit (CYC); checkConsistency runs unless SkipConsistencyCheck and validation.Validate unless SkipValidation, errors propagated (PIPE); the switches are the caller's: loader.Options fields are written only by option setters or on an Options value the function created / cloned, never through a *Options received from the caller (GATEW); every field of loader.Options is copied, from the field of the same name, by (*Options).clone, so a nested load (include, extends) runs under the switches the caller set (CLONE); validation.checks rows denote schema paths and are exclusive (A1, A2).",
+		Decides:    "checkConsistency has an error return that depends on the model fields of each of the 20 rules of the statement (INV) and ends in graph.CheckCycle; searchCycle is guarded by path membership and errors on a hit (CYC); checkConsistency runs unless SkipConsistencyCheck and validation.Validate unless SkipValidation, errors propagated (PIPE); the switches are the caller's: loader.Options fields are written only by option setters or on an Options value the function created / cloned, never through a *Options received from the caller (GATEW); the error for several exclusive sources of a secret / config does not depend on `driver` / `external` (SRCEXCL); every field of loader.Options is copied, from the field of the same name, by (*Options).clone, so a nested load (include, extends) runs under the switches the caller set (CLONE); validation.checks rows denote schema paths and are exclusive (A1, A2).",
 		NotDecided: "that each condition is the right condition (an inverted comparison survives); acceptance implies consistency for fragments arriving through override / extends / include.",
-		Rules:      []string{"INV", "CYC", "PIPE", "GATEW", "A1", "A2", "CLONE", "TREE", "EXTVAL"},
+		Rules:      []string{"INV", "CYC", "PIPE", "GATEW", "A1", "A2", "CLONE", "TREE", "EXTVAL", "SRCEXCL"},
 		Run: func(c *rules.Ctx) []report.Obligation {
-			return cat(c.EXTVAL("EXTVAL"), c.TREE("TREE", "LOAD"), c.CLONE("CLONE"), c.INV("INV"), rules.Only(c.CYC("CYC"), "depends_on ::"), c.PIPE("PIPE", stageIn("loader.checkConsistency", "validation.Validate")), c.GATEW("GATEW"),
+			return cat(c.SRCEXCL("SRCEXCL"), c.EXTVAL("EXTVAL"), c.TREE("TREE", "LOAD"), c.CLONE("CLONE"), c.INV("INV"), rules.Only(c.CYC("CYC"), "depends_on ::"), c.PIPE("PIPE", stageIn("loader.checkConsistency", "validation.Validate")), c.GATEW("GATEW"),
 				c.A1("A1", rules.TChecks), c.A2("A2", rules.TChecks))
 		},
 	})
 	def("C11", &propertyDef{
-		Decides:    "in everything reachable from SetDefaultValues, Canonical and Normalize every update of a map the function did not create is guarded by an absence test, an alias test, derives from the previous value, or is the current entry of a range (DFLT); SetDefaultValues and Normalize are gated by their flags and propagate errors (PIPE); the defaultValues rows denote schema paths (A2); defaults filled in for several entries are separate objects: no loop stores one loop-invariant map under several keys, so refining one entry later cannot change its siblings (TREE); a resource keeps its bare key as name on the strength of the value of `external`, not of the presence of the key (EXTVAL); every field of loader.Options is copied, from the field of the same name, by (*Options).clone, so a nested load (include, extends) runs under the switches the caller set (CLONE).",
+		Decides:    "in everything reachable from SetDefaultValues, Canonical and Normalize every update of a map the function did not create is guarded by an absence test, an alias test, derives from the previous value, or is the current entry of a range (DFLT); SetDefaultValues and Normalize are gated by their flags and propagate errors (PIPE); the defaultValues rows denote schema paths (A2); defaults filled in for several entries are separate objects: no loop stores one loop-invariant map under several keys, so refining one entry later cannot change its siblings (TREE); a resource keeps its bare key as name on the strength of the value of `external`, not of the presence of the key (EXTVAL); whether a service uses the `default` network is decided by the presence of the key, never by a nil test of its value (NETPRES); every field of loader.Options is copied, from the field of the same name, by (*Options).clone, so a nested load (include, extends) runs under the switches the caller set (CLONE).",
 		NotDecided: "that the default values are the specification's (\"tcp\", \"ingress\", <project>_<key>); that `default` is added iff some service uses it.",
-		Rules:      []string{"DFLT", "PIPE", "A2", "TREE", "CLONE", "EXTVAL"},
+		Rules:      []string{"DFLT", "PIPE", "A2", "TREE", "CLONE", "EXTVAL", "NETPRES"},
 		Run: func(c *rules.Ctx) []report.Obligation {
-			return cat(c.EXTVAL("EXTVAL"), c.CLONE("CLONE"), c.DFLT("DFLT", []string{"transform.SetDefaultValues", "transform.Canonical", "loader.Normalize"}, []string{"loader.load"}),
+			return cat(c.NETPRES("NETPRES"), c.EXTVAL("EXTVAL"), c.CLONE("CLONE"), c.DFLT("DFLT", []string{"transform.SetDefaultValues", "transform.Canonical", "loader.Normalize"}, []string{"loader.load"}),
 				c.PIPE("PIPE", stageIn("transform.SetDefaultValues", "loader.Normalize")), c.A2("A2", rules.TDefaults), c.TREE("TREE", "LOAD"))
 		},
 	})
 	def("C12", &propertyDef{
-		Decides:    "each path-bearing attribute named by the statement matches exactly one resolver row and no resolver sits on another attribute (A9); resolver patterns are exclusive and denote schema paths (A1, A2); each origin resolves against its own base: main files against config.WorkingDir gated by ResolvePaths, included projects against loader.Dir / project_directory (ORIGIN), extended files against loader.Dir(refPath) with the nested load not resolving (EXT-5); a build context containing `://` is returned unchanged on the strength of a plain substring test (URLCTX); no branch of the resolver methods is decided by the base directory, so whether a path is rewritten depends on the path alone (PATHPURE); the resolvers bound to mount sources and secret / config files consult the Windows-absolute test (A9-win).",
+		Decides:    "each path-bearing attribute named by the statement matches exactly one resolver row and no resolver sits on another attribute (A9); resolver patterns are exclusive and denote schema paths (A1, A2); each origin resolves against its own base: main files against config.WorkingDir gated by ResolvePaths, included projects against loader.Dir / project_directory (ORIGIN), extended files against loader.Dir(refPath) with the nested load not resolving (EXT-5); a build context containing `://` is returned unchanged on the strength of a plain substring test (URLCTX); no branch of the resolver methods is decided by the base directory, so whether a path is rewritten depends on the path alone (PATHPURE); the home directory replaces exactly the leading `~` (TILDE); the resolvers bound to mount sources and secret / config files consult the Windows-absolute test (A9-win).",
 		NotDecided: "absolute / known-remote-prefix / Windows detection, `~` expansion, idempotence: value-level string predicates.",
-		Rules:      []string{"A9", "A1", "A2", "ORIGIN", "EXT-5", "PIPE", "TREEPATH", "URLCTX", "PATHPURE"},
+		Rules:      []string{"A9", "A1", "A2", "ORIGIN", "EXT-5", "PIPE", "TREEPATH", "URLCTX", "PATHPURE", "TILDE"},
 		Run: func(c *rules.Ctx) []report.Obligation {
-			return cat(c.PATHPURE("PATHPURE"), c.A9("A9"), c.TREEPATH("TREEPATH"), c.URLCTX("URLCTX"), c.A1("A1", rules.TResolvers), c.A2("A2", rules.TResolvers), c.ORIGIN("ORIGIN"), rules.OnlyRule(c.EXT("EXT"), "EXT-5"),
+			return cat(c.TILDE("TILDE"), c.PATHPURE("PATHPURE"), c.A9("A9"), c.TREEPATH("TREEPATH"), c.URLCTX("URLCTX"), c.A1("A1", rules.TResolvers), c.A2("A2", rules.TResolvers), c.ORIGIN("ORIGIN"), rules.OnlyRule(c.EXT("EXT"), "EXT-5"),
 				c.PIPE("PIPE", stageIn("paths.ResolveRelativePaths")))
 		},
 	})
@@ -178,11 +178,11 @@ func init() {
 		},
 	})
 	def("C15", &propertyDef{
-		Decides:    "WithProfiles ranges over AllServices() and stores every service on exactly one edge of HasProfile into the map assigned to Services resp. DisabledServices (PART-1); WithServicesDisabled records the service in DisabledServices before deleting it from Services, under the presence test, and deletes DependsOn[name] in all remaining services (PART-2, DEP); WithSelectedServices keeps or disables every service (PART-3); WithServicesEnabled re-partitions through WithProfiles on every path where a name was given (PART-4); no map range in the selection operations has an order-sensitive effect (ORD).",
+		Decides:    "WithProfiles ranges over AllServices() and stores every service on exactly one edge of HasProfile into the map assigned to Services resp. DisabledServices (PART-1); WithServicesDisabled records the service in DisabledServices before deleting it from Services, under the presence test, and deletes DependsOn[name] in all remaining services (PART-2, DEP); WithSelectedServices keeps or disables every service (PART-3); WithServicesEnabled re-partitions through WithProfiles on every path where a name was given (PART-4); the profile predicate compares every selected profile with `*` (PROFSTAR); no map range in the selection operations has an order-sensitive effect (ORD).",
 		NotDecided: "the profile predicate, the dependency closure on arbitrary graphs, pruning exactly the referenced resources: set-valued semantics.",
-		Rules:      []string{"PART", "ORD"},
+		Rules:      []string{"PART", "ORD", "PROFSTAR"},
 		Run: func(c *rules.Ctx) []report.Obligation {
-			return cat(c.PART("PART"), c.ORD("ORD", "SELECT"))
+			return cat(c.PROFSTAR("PROFSTAR"), c.PART("PART"), c.ORD("ORD", "SELECT"))
 		},
 	})
 	def("C16", &propertyDef{
@@ -212,20 +212,20 @@ func init() {
 		},
 	})
 	def("C19", &propertyDef{
-		Decides:    "no package-level variable is written outside init (GLOB); for every function that spawns goroutines: state written by a spawned closure is not touched by the spawner between spawn and Wait nor by a sibling closure without a common mutex (R2), the owner returns Wait()'s error on every path after a spawn (R4), channels sent on from closures have len-derived capacity and one send per closure (R5); mutex-guarded fields are only accessed under the mutex, in constructors or after the join (R3); graph structures are read-only during the walk (RONLY).",
+		Decides:    "no package-level variable is written outside init (GLOB); for every function that spawns goroutines: state written by a spawned closure is not touched by the spawner between spawn and Wait nor by a sibling closure without a common mutex (R2), the owner returns Wait()'s error on every path after a spawn (R4), channels sent on from closures have len-derived capacity and one send per closure (R5); mutex-guarded fields are only accessed under the mutex, in constructors or after the join (R3); graph structures are read-only during the walk (RONLY); the structure of the dependency-ordered traversal (gating by ready then enter, visitor before done before hand-off, status values, counter, limit) as in C13 (TRV).",
 		NotDecided: "data-race freedom of dependencies (logrus, gojsonschema globals); that each load returns what it would return alone beyond the absence of shared writable state; channel happens-before is not modelled.",
-		Rules:      []string{"GLOB", "FAN", "R3", "RONLY", "PAIR", "INPUTS"},
+		Rules:      []string{"GLOB", "FAN", "R3", "RONLY", "PAIR", "INPUTS", "TRV"},
 		Run: func(c *rules.Ctx) []report.Obligation {
-			return cat(c.GLOB("GLOB"), c.FanOut("FAN"), c.R3("R3", "graph", "types"), c.PAIR("PAIR", "graph", "loader"), c.INPUTS("INPUTS"),
+			return cat(c.TRV("TRV"), c.GLOB("GLOB"), c.FanOut("FAN"), c.R3("R3", "graph", "types"), c.PAIR("PAIR", "graph", "loader"), c.INPUTS("INPUTS"),
 				c.ROnly("RONLY", "graph", []string{"graph.walk"}, map[string]bool{"traversal.status": true, "traversal.results": true}))
 		},
 	})
 	def("C20", &propertyDef{
-		Decides:    "each of the four secret/config marshallers blanks Content on the edge where it must not be rendered and reads the rendered copy afterwards (SEC-1); they exist with value receivers (SEC-2); marshallContent is written in one function, under the explicit option, on a deep copy (SEC-3); the decoder hook moves the carrier key to Content and deletes it (SEC-4); the renderers keep no package-level state (no pooled buffer a returned rendering could alias) (GLOB); the loops that resolve environment-sourced secrets and configs carry nothing from one resource to the next (ORD on loader.resolve*); environment values looked up for secrets/configs are stored only under the carrier key resp. `content` (SEC-5); the project renderers do not write through the project (IMM-I1).",
+		Decides:    "each of the four secret/config marshallers blanks Content on the edge where it must not be rendered and reads the rendered copy afterwards (SEC-1); they exist with value receivers (SEC-2); marshallContent is written in one function, under the explicit option, on a deep copy (SEC-3); the decoder hook moves the carrier key to Content and deletes it (SEC-4); the renderers keep no package-level state (no pooled buffer a returned rendering could alias) (GLOB); no decision of the pipeline is keyed on the last path segment alone, which at depth two is a user-chosen resource name (PATHLAST); the loops that resolve environment-sourced secrets and configs carry nothing from one resource to the next (ORD on loader.resolve*); environment values looked up for secrets/configs are stored only under the carrier key resp. `content` (SEC-5); the project renderers do not write through the project (IMM-I1).",
 		NotDecided: "non-occurrence of the value in the bytes (a second struct field, a user extension literally named x-#value, a value present elsewhere in the model); exact reproduction with WithSecretContent.",
-		Rules:      []string{"SEC", "IMM-I1", "GLOB", "ORD"},
+		Rules:      []string{"SEC", "IMM-I1", "GLOB", "ORD", "PATHLAST"},
 		Run: func(c *rules.Ctx) []report.Obligation {
-			return cat(c.SEC("SEC"), c.IMMRender("IMM"), rules.Only(c.GLOB("GLOB"), "types.", "inventory"), rules.Only(c.ORD("ORD", "LOAD"), "loader.resolve"))
+			return cat(c.PATHLAST("PATHLAST"), c.SEC("SEC"), c.IMMRender("IMM"), rules.Only(c.GLOB("GLOB"), "types.", "inventory"), rules.Only(c.ORD("ORD", "LOAD"), "loader.resolve"))
 		},
 	})
 }
